@@ -425,6 +425,10 @@ class ExprMixin:
                 if not isinstance(item, SRef):
                     return [(st, False)]
                 return [(st, SBool(z3.Select(c, item.z)))]
+            if container.kind == "set[key]":
+                return [(st, SBool(z3.Select(c, self.elem_key(st, item))))]
+            if container.kind == "map[key,ref]":
+                return [(st, SBool(z3.Select(c, self.elem_key(st, item)) != NULL))]
             if container.kind == "set[pref]":
                 i, p = self.pref_key(st, item)
                 return [(st, SBool(z3.Select(c, i, p)))]
@@ -554,6 +558,11 @@ class ExprMixin:
             else:
                 return [(st, BoundMethod(("py", attr), obj))]
         # concrete python object (module, class, enum member, function, ...)
+        try:
+            if (obj, attr) in self.class_attrs:
+                return [(st, self.class_attrs[(obj, attr)](self, st, obj))]
+        except TypeError:
+            pass
         try:
             return [(st, getattr(obj, attr))]
         except AttributeError:
@@ -779,6 +788,11 @@ class ExprMixin:
     def setitem(self, st, obj, key, val, node=None):
         if isinstance(obj, SLoc):
             c = st.heap.get(obj.field, obj.owner)
+            if obj.kind == "map[key,ref]":
+                if not isinstance(val, SRef):
+                    raise Unsupported(f"map store of {val!r}", node)
+                st.heap.put(obj.field, obj.owner, z3.Store(c, self.elem_key(st, key), val.z))
+                return [(st, None)]
             if obj.kind == "map[str,ref]":
                 if not isinstance(key, (str, SStr)):
                     raise Unsupported(f"map store under non-string key {key!r}", node)
